@@ -391,6 +391,11 @@ def run(ctx, report):
     from .c09 import liberal_swap_rule
     liberal_swap_rule(ctx, R9)
 
+    R10 = report.rule('C19.D10', 'two spellings of one operand are parsed independently of what was parsed before: the operand parsers keep no cached operand that a caller completes in '
+                      'place (shared with C12.D7)', floor=100)
+    from .c12 import shared_table_rule
+    shared_table_rule(R10, [ctx.mod('ia32_arch'), ctx.mod('parse_ad'), ctx.mod('ia32_att')])
+
 
 def imm_typing_rule(ctx, R):
     """check_imm_size offers the sign-extended imm8 form of a 16-bit operand only to an immediate that carries its width (imm.size == 16, which
